@@ -977,7 +977,7 @@ static int write_char(void *context, cif_value_tp *char_value, int allow_text) {
                     break;
                 case 3: /* triple-quoted */
                     assert(analysis.delim[0] == UCHAR_SQ || analysis.delim[0] == UCHAR_DQ);
-                    result = write_triple_quoted(context, text, analysis.length_first + 3, analysis.length_last, analysis.delim[0]);
+                    result = write_triple_quoted(context, text, analysis.length_first, analysis.length_last, analysis.delim[0]);
                     break;
                 case 2: /* text field */
                     assert(analysis.delim[0] == UCHAR_NL);
@@ -1241,14 +1241,18 @@ static int write_triple_quoted(void *context, const UChar *text, int32_t line1_l
         char delimiter) {
     int32_t nchars;
     int last_column = LAST_COLUMN(context);
+    int multiline = (text[line1_length] != 0);
+    /* the first line carries the opening delimiter, and if it is the only line then also the closing one */
+    int delim_length = (multiline ? 3 : 6);
 
-    if ((last_column + line1_length + 3) > LINE_LENGTH(context)) {
+    if ((last_column + line1_length + delim_length) > LINE_LENGTH(context)) {
         if (write_newline(context)) {
             last_column = 0;
         } else {
             return CIF_ERROR;
         }
-    } else if (text[line1_length]) {
+    }
+    if (multiline) {
         assert(text[line1_length] == '\n');
         last_column = 0;  /* as-of before writing the last line */
     }
@@ -1256,7 +1260,7 @@ static int write_triple_quoted(void *context, const UChar *text, int32_t line1_l
     nchars = u_fprintf(CONTEXT_UFILE(context), "%c%c%c%S%c%c%c", delimiter, delimiter, delimiter,
             text, delimiter, delimiter, delimiter);
 
-    SET_LAST_COLUMN(context, last_column + last_line_length + 3);
+    SET_LAST_COLUMN(context, last_column + last_line_length + delim_length);
 
     return (nchars >= (line1_length + 6)) ? CIF_OK : CIF_ERROR;
 }
